@@ -373,8 +373,10 @@ class Run:
         for dd in sorted({self.ddir(i) for i in range(len(self.datasets))}):
             shutil.copytree(dd, os.path.join('ref', dd))
         for i, d in enumerate(self.datasets):
-            pass
-            # harness self-check of the file writers: ground truth must be what the parser sees
+            if d.get('unwrapped'):
+                self.stats.probe('dataset_with_unwrapped_source_coordinates')
+            if any(isinstance(a.get('temperature'), int) and 311 < a['temperature'] < 399 for a in (self.sc['world'].get('argsets') or [[]] * (i + 1))[i]):
+                self.stats.probe('anagram_twin_argsets')
         self.trace.log(ev='world', datasets=[{k: v for k, v in d.items()} for d in self.datasets])
 
     def n_argsets(self, ds: int) -> int:
